@@ -39,7 +39,8 @@ def run_one(sd):
         shutil.rmtree(tmp, ignore_errors=True)
 
 def main():
-    seeds = sorted(glob.glob(os.path.join(VERIF, 'seeded', '*', 'meta.json')))
+    only = [a.split('=', 1)[1] for a in sys.argv if a.startswith('--only=')]
+    seeds = sorted(glob.glob(os.path.join(VERIF, 'seeded', only[0] if only else '*', 'meta.json')))
     with ThreadPoolExecutor(max_workers=12) as ex:
         results = dict(ex.map(run_one, [os.path.dirname(s) for s in seeds]))
     missed = []
@@ -60,7 +61,7 @@ def main():
         print(line[:300])
         if own not in caught:
             missed.append(sid)
-    if '--all-props' in sys.argv and not any(a.startswith('--transform=') for a in sys.argv):
+    if '--all-props' in sys.argv and not any(a.startswith('--transform=') or a.startswith('--only=') for a in sys.argv):
         json.dump(results, open(os.path.join(VERIF, 'seeded', 'MATRIX.json'), 'w'), indent=1, sort_keys=True)
     print('missed by own property check:', missed)
     return 0
